@@ -99,6 +99,10 @@ class Fabric:
     def close(self):
         self.stop = True
         try:
+            self.s.shutdown(socket.SHUT_RDWR)     # wakes the accept thread, which would otherwise keep the listener open
+        except OSError:
+            pass
+        try:
             self.s.close()
         except OSError:
             pass
